@@ -140,7 +140,7 @@ func cmdCheck(args []string) int {
 			fmt.Fprintf(os.Stderr, "no rules for %s\n", id)
 			return 2
 		}
-		if len(r.Patterns) == 0 {
+		if len(r.Patterns) == 0 || (*tier == "thorough" && *overlay == "") {
 			pats = map[string]bool{"./...": true}
 			break
 		}
